@@ -283,6 +283,17 @@ def evaluate(case) -> Result:
                     w.feed_msg(c, {"k": "DPR", "host": host, "hbh": 0xd00 + len(w.conns), "e2e": 0xd00 + len(w.conns)})
                     if fk == "dpr-close":
                         w.peer_close(c)
+                elif fk == "dpr-second-connection":
+                    # the requester says DPR, gets its DPA, leaves that connection open and completes the handshake
+                    # of a second one: answers to requests of the first connection may not be sent on the second.
+                    # (No further traffic of this peer: a peer with two open connections is C12/C13's known finding.)
+                    nc_ = w.node_conn_for(c)
+                    if nc_ is not None and nc_.state in pm.PEER_READY_STATES:
+                        dpr_conns.append(c)
+                    w.feed_msg(c, {"k": "DPR", "host": host, "hbh": 0xd00 + len(w.conns), "e2e": 0xd00 + len(w.conns)})
+                    w.handshake_in(names[pi], auth=[4], ip=f"10.1.1.{pi + 1}", hbh=0x100 + pi + 8 * len(w.conns))
+                    conns[pi] = None
+                    res.classes.append("fault:dpr-second-connection")
                 elif fk == "reconnect":
                     w.peer_close(c)
                     gen[pi] += 1
@@ -585,7 +596,7 @@ def shard_main(shard, nshards, tier, scale):
                    st.tuples(st.just("SUBMIT"), st.integers(0, 3)), st.tuples(st.just("SUBMIT"), st.integers(0, 3)),
                    st.tuples(st.just("SUBMIT_DIRECT"), st.integers(0, 3)), st.tuples(st.just("REQ2_LOST_WHILE_HANDLING"), st.integers(0, 2)),
                    st.tuples(st.just("SUBMIT_AGAIN"), st.integers(0, 3)), st.tuples(st.just("SUBMIT_AGAIN"), st.integers(0, 3)),
-                   st.tuples(st.just("FAULT"), st.integers(0, 2), st.sampled_from(["eof", "reset", "dpr", "dpr-close", "reconnect", "reconnect-overlap", "watchdog", "dwa", "dwa"])),
+                   st.tuples(st.just("FAULT"), st.integers(0, 2), st.sampled_from(["eof", "reset", "dpr", "dpr-close", "reconnect", "reconnect-overlap", "watchdog", "dwa", "dwa", "dpr-second-connection"])),
                    st.tuples(st.just("ADV"), st.sampled_from([1, 2, 4])))
 
     @st.composite
@@ -603,7 +614,7 @@ def shard_main(shard, nshards, tier, scale):
 
     # fault enumeration: one request, each fault kind at each point (before submit), then submit
     jobs = []
-    for fk in ("eof", "reset", "dpr", "dpr-close", "reconnect", "reconnect-overlap", None):
+    for fk in ("eof", "reset", "dpr", "dpr-close", "reconnect", "reconnect-overlap", "dpr-second-connection", None):
         for other_req in (False, True):
             for npeers in (1, 2):
                 ev_ = [["REQ", 0, 0]]
@@ -643,7 +654,7 @@ def run(tier, scale=1.0):
     for d in hyp.pool_run(shard_main, (tier, scale)):
         rec.merge(d)
     required = {"request-vs-eof": 1, "equal-id-pair-two-connections": 1, "table-change:loss": 1, "table-change:first-request": 1, "schedule-exploration": 1, "deviations:2": 1, "npeers:3": 1, "app:threading": 1, "fault:eof": 1, "fault:reset": 1, "fault:dpr": 1,
-                "fault:reconnect": 1, "fault:reconnect-overlap": 1, "lost-while-handling": 1, "watchdog-outstanding": 1, "dwa-after-dpr": 1, "handler-raised-then-submit": 1, "direct-send-message": 1, "out0:True": 1, "double-submission": 1, "equal-hbh-two-conns": 1, "reqs:4": 1}
+                "fault:reconnect": 1, "fault:reconnect-overlap": 1, "fault:dpr-second-connection": 1, "lost-while-handling": 1, "watchdog-outstanding": 1, "dwa-after-dpr": 1, "handler-raised-then-submit": 1, "direct-send-message": 1, "out0:True": 1, "double-submission": 1, "equal-hbh-two-conns": 1, "reqs:4": 1}
     return finish(rec, tier=tier, level=LEVEL, rule=RULE, assumptions=ASSUME, t0=t0,
                   required_classes=required)
 
